@@ -79,3 +79,24 @@ Print Assumptions C16_circle_case.
 Example C16_nonvacuous_kepler :
   h H_example <> 0 /\ polar (2 - x0 H_example) (0 - y0 H_example) (k_r H_example 2 0) 0.
 Proof. exact nonvacuous_kepler_lemma. Qed.
+
+(* ---- binary64: the executable model that the differential run ties to the code ---- *)
+From AG Require Recon.Helix Recon.Helix_proofs.
+
+(* rn x  :=  is_nan x = true  \/  (-PI <=? x) = true /\ (x <=? PI) = true     (PI = 0x1.921fb54442d18p+1)
+   Part (2) of the property; hypothesis: libm's atan2 returns NaN or a value in [-pi, pi] (its range contract).
+   Depends on the standard library's FloatAxioms (link between primitive floats and their specification). *)
+Theorem C16_closest_t_range_partial : forall (L : Helix.libm),
+  (forall y x, Helix_proofs.rn (Helix.latan2 L y x)) ->
+  forall (H : Helix.helix) (p : Helix.spoint) (tol : PrimFloat.float) (n : nat),
+  Helix_proofs.rn (Helix.closest_t L H p tol n).
+Proof. exact Helix_proofs.closest_t_range_lemma. Qed.
+Print Assumptions C16_closest_t_range_partial.
+
+(* f64::clamp(-PI, PI) returns NaN only for NaN, otherwise a value in [-pi, pi] *)
+Theorem C16_clamp_range : forall x : PrimFloat.float, Helix_proofs.rn (Helix.clamp x (PrimFloat.opp Helix.PI) Helix.PI).
+Proof. exact Helix_proofs.clamp_rn. Qed.
+Print Assumptions C16_clamp_range.
+
+Example C16_atan2_contract_satisfiable : forall y x, Helix_proofs.rn (Helix.latan2 Helix_proofs.toy_libm y x).
+Proof. exact Helix_proofs.toy_atan2_range. Qed.
